@@ -1449,6 +1449,8 @@ sexp sexp_make_string_op (sexp ctx, sexp self, sexp_sint_t n, sexp len, sexp ch)
   if (sexp_charp(ch) && (sexp_unbox_character(ch) >= 0x80)) {
     sexp_assert_type(ctx, sexp_fixnump, SEXP_FIXNUM, len);
     clen = sexp_utf8_char_byte_count(sexp_unbox_character(ch));
+    if (sexp_unbox_fixnum(len) > SEXP_MAX_FIXNUM / clen)
+      return sexp_xtype_exception(ctx, self, "string length out of range", len);
     b = sexp_make_bytes_op(ctx, self, n,
                            sexp_fx_mul(len, sexp_make_fixnum(clen)), SEXP_VOID);
     if (sexp_exceptionp(b)) return b;
